@@ -167,5 +167,106 @@ pub fn clauses() -> Vec<Clause> {
     ]
 }
 
+/// Native f32 / f64 quaternions with components m*2^e spread over 40 binary
+/// orders of magnitude: the Hamilton product, q*v (the statement's formula
+/// v + 2 qv x (qv x v + s v)), conjugate and the ring operations against a
+/// double-double model, componentwise allowance 1024 eps * (sum of the
+/// magnitudes of the terms of that component).
+pub fn native_floats(cfg: &cgv_core::fw::RunCfg, extra: &mut cgv_core::fw::Extra) {
+    use cgmath::{BaseFloat, Vector3};
+    use cgv_core::acc::Acc;
+    use cgv_core::dd;
+    use serde_json::json;
+    fn run<T: BaseFloat>(tag: &str, p0: [f64; 4], q0: [f64; 4], v0: [f64; 3], acc: &mut Acc, inputs: &dyn Fn() -> serde_json::Value) {
+        let eps = T::epsilon().to_f64().unwrap();
+        let f = |x: f64| T::from(x).unwrap();
+        let g = |x: T| x.to_f64().unwrap();
+        // (s, x, y, z)
+        let p = Quaternion::new(f(p0[0]), f(p0[1]), f(p0[2]), f(p0[3]));
+        let q = Quaternion::new(f(q0[0]), f(q0[1]), f(q0[2]), f(q0[3]));
+        let pq = p * q;
+        let got = [g(pq.s), g(pq.v.x), g(pq.v.y), g(pq.v.z)];
+        let (a, b) = (p0, q0);
+        // Hamilton table: rows are the four components of p*q as signed products a_i b_j
+        let table: [[(usize, usize, f64); 4]; 4] = [
+            [(0, 0, 1.0), (1, 1, -1.0), (2, 2, -1.0), (3, 3, -1.0)],
+            [(0, 1, 1.0), (1, 0, 1.0), (2, 3, 1.0), (3, 2, -1.0)],
+            [(0, 2, 1.0), (2, 0, 1.0), (3, 1, 1.0), (1, 3, -1.0)],
+            [(0, 3, 1.0), (3, 0, 1.0), (1, 2, 1.0), (2, 1, -1.0)],
+        ];
+        for (c, row) in table.iter().enumerate() {
+            let l: Vec<f64> = row.iter().map(|t| a[t.0] * t.2).collect();
+            let r: Vec<f64> = row.iter().map(|t| b[t.1]).collect();
+            let (want, cond) = dd::dot(&l, &r);
+            acc.check(&format!("{tag} (p*q) component {c} (s,x,y,z order)"), got[c], want, 1024.0 * eps * cond, inputs);
+        }
+        let cj = p.conjugate();
+        acc.truth(&format!("{tag} conjugate negates exactly the vector part"), cj.s == p.s && cj.v == -p.v, inputs);
+        let sum = p + q;
+        acc.truth(&format!("{tag} p + q is component-wise"), sum.s == p.s + q.s && sum.v == p.v + q.v, inputs);
+        let (want, cond) = dd::dot(&p0, &p0);
+        acc.check(&format!("{tag} magnitude2(p)"), g(p.magnitude2()), want, 1024.0 * eps * cond, inputs);
+        // q*v = v + 2 qv x (qv x v + s v): evaluate the formula in double-double-free f64 on
+        // well-scaled parts and bound it by the magnitudes of its terms
+        let v = Vector3::new(f(v0[0]), f(v0[1]), f(v0[2]));
+        let r = q * v;
+        let (s, qv) = (q0[0], [q0[1], q0[2], q0[3]]);
+        let cross = |a: [f64; 3], b: [f64; 3]| [a[1] * b[2] - a[2] * b[1], a[2] * b[0] - a[0] * b[2], a[0] * b[1] - a[1] * b[0]];
+        let abs3 = |a: [f64; 3]| [a[0].abs(), a[1].abs(), a[2].abs()];
+        let crossabs = |a: [f64; 3], b: [f64; 3]| [a[1] * b[2] + a[2] * b[1], a[2] * b[0] + a[0] * b[2], a[0] * b[1] + a[1] * b[0]];
+        let t = cross(qv, v0);
+        let inner = [t[0] + s * v0[0], t[1] + s * v0[1], t[2] + s * v0[2]];
+        let tabs = crossabs(abs3(qv), abs3(v0));
+        let innerabs = [tabs[0] + (s * v0[0]).abs(), tabs[1] + (s * v0[1]).abs(), tabs[2] + (s * v0[2]).abs()];
+        let o = cross(qv, inner);
+        let oabs = crossabs(abs3(qv), innerabs);
+        for i in 0..3 {
+            let want = v0[i] + 2.0 * o[i];
+            let cond = v0[i].abs() + 2.0 * oabs[i];
+            // the f64 evaluation of the model itself carries a few eps64 * cond
+            acc.check(&format!("{tag} (q*v)[{i}] vs v + 2 qv x (qv x v + s v)"), g(r[i]), want, 1024.0 * eps * cond, inputs);
+        }
+    }
+    let n = if cfg.tier == Tier::Quick { 3000 } else { 200_000 };
+    let mut acc = Acc::new("c04_float_quaternions");
+    for i in 0..n {
+        let mut rng = Rng::for_case(cfg.seed, "c04_native_floats", i);
+        let wide = rng.bool();
+        let entry = |rng: &mut Rng| {
+            let m = rng.range(1, 2047) as f64 * if rng.bool() { 1.0 } else { -1.0 };
+            m * (2.0f64).powi(if wide { rng.range(-20, 20) as i32 } else { -10 })
+        };
+        let p = [entry(&mut rng), entry(&mut rng), entry(&mut rng), entry(&mut rng)];
+        let q = [entry(&mut rng), entry(&mut rng), entry(&mut rng), entry(&mut rng)];
+        let v = [entry(&mut rng), entry(&mut rng), entry(&mut rng)];
+        acc.case(if wide { "components m*2^e, e in [-20,20]" } else { "components of similar size" });
+        let inputs = || json!({"p_sxyz": p, "q_sxyz": q, "v": v, "index": i});
+        match cgv_core::fw::catch(|| {
+            let mut local = Acc::new("c04_float_quaternions");
+            run::<f64>("f64", p, q, v, &mut local, &inputs);
+            run::<f32>("f32", p, q, v, &mut local, &inputs);
+            local
+        }) {
+            Ok(l) => {
+                acc.checks += l.checks;
+                acc.worst = acc.worst.max(l.worst);
+                if acc.fail.is_none() {
+                    acc.fail = l.fail;
+                }
+            }
+            Err(pn) => acc.truth(&format!("unexpected panic: {pn}"), false, &inputs),
+        }
+        if acc.failed() {
+            break;
+        }
+    }
+    acc.finish(extra, "double-double Hamilton table; f64 evaluation of the statement's q*v formula; allowance 1024 eps * sum of term magnitudes");
+}
+
+pub fn native(cfg: &cgv_core::fw::RunCfg, extra: &mut cgv_core::fw::Extra) {
+    cgv_core::twins::c04(cfg, extra);
+    native_floats(cfg, extra);
+}
+
 pub const RULE: &str = "algebra: three quaternions and a vector of small rationals plus a non-zero scalar; unit: two exactly unit quaternions (rational points of the 3-sphere by inverse stereographic projection of integer points, random overall sign) and a rational vector; non-trivial = all components non-zero and pairwise distinct within each operand; distinct = distinct input tuples per clause.";
 pub const ASSUME: &[&str] = &["exact rational arithmetic in i128; no tolerance anywhere"];
